@@ -261,8 +261,13 @@ where
                         take!(DateToken::Colon);
                         let m = take!(DateToken::Number(s, None), s);
                         if let Some(m) = parse_range(&m, 2, 0..=59) {
-                            out.offset = Some(s * (h * 3600 + m * 60));
-                            Ok(())
+                            match h.checked_mul(3600).and_then(|h| h.checked_add(m * 60)) {
+                                Some(offset) => {
+                                    out.offset = Some(s * offset);
+                                    Ok(())
+                                }
+                                None => Err(format!("Offset out of range: {}:{}", h, m)),
+                            }
                         } else {
                             Err(format!("Expected 2 digits after : in offset, got {}", m))
                         }
